@@ -30,6 +30,9 @@ pub struct ScriptSpec {
     pub gate: Option<String>,
     pub read: Vec<String>,
     pub write: Vec<String>,
+    /// files the script removes when it succeeds, before it writes (a build that empties its
+    /// output directory first: leftovers of earlier versions of itself go)
+    pub wipe: Vec<String>,
     pub size: usize,
     pub partial: bool,
     pub dur: u64,
@@ -71,6 +74,7 @@ pub fn parse_script(script: &str) -> ScriptSpec {
             "gate" => s.gate = Some(v.to_string()),
             "read" => s.read = v.split(',').filter(|x| !x.is_empty()).map(String::from).collect(),
             "write" => s.write = v.split(',').filter(|x| !x.is_empty()).map(String::from).collect(),
+            "wipe" => s.wipe = v.split(',').filter(|x| !x.is_empty()).map(String::from).collect(),
             "size" => s.size = v.parse().unwrap_or(0),
             "partial" => s.partial = true,
             "dur" => s.dur = v.parse().unwrap_or(0),
@@ -294,6 +298,15 @@ pub fn fire_exit(pid: usize) {
             } else {
                 0
             };
+            if ok {
+                for rel in spec.wipe.iter() {
+                    let path = cwd.join(rel);
+                    if std::fs::remove_file(&path).is_ok() {
+                        rt.tick();
+                        crate::vfs::notify_paths(rt, vec![(crate::vfs::K_REMOVE, vec![path])]);
+                    }
+                }
+            }
             for rel in spec.write.iter().take(n) {
                 let content = if ok {
                     crate::stamp::stamp(&spec.id, rel, snapshot, spec.size)
